@@ -1234,6 +1234,11 @@ def h_batch_vs_single(eng, spec):
         shifts[sect.name] = shift + (_section_size(b, sect) - before)
     b.spec = spec
     compare_snapshots(eng, snapshot(a, False), snapshot(b, False), "C09 batch vs one-at-a-time:")
+    # "up to temporary-label suffixes" does not mean "up to collisions": in either copy every symbol name is used once
+    for which, sc_ in (("batch", a), ("one context per modification", b)):
+        names = sorted(s_.name for s_ in sc_.module.symbols)
+        dup = sorted({n for n in names if names.count(n) > 1})
+        eng.check(not dup, "C09/C13 after the %s rewrite several symbols share one name: %s" % (which, dup))
 
 
 def _section_size(sc, sect):
@@ -1425,6 +1430,12 @@ def make_check_C09(tier):
     # in the cache (end-of-block label of a block that was split and joined again, start label of a block cut at its head)
     import copy as _c
     ins, dele = rewrite_shapes.ins, rewrite_shapes.dele
+    # the same temporary label in two patches: each context of the one-at-a-time copy hands out its suffixes itself
+    for mods in ([ins("b0", 1, "jcc_tmp"), ins("b2", 1, "jcc_tmp")], [ins("b1", 1, "jcc_tmp"), ins("b1", 2, "jcc_tmp")],
+                 [ins("b0", 0, "selfloop"), ins("b1", 0, "selfloop"), ins("b2", 0, "selfloop")]):
+        spec = rewrite_shapes.text_layout("jcc:s0")
+        spec["mods"] = _c.deepcopy(mods)
+        chk.add("twotemps/%s" % rewrite_shapes.mods_name(mods), h_batch_vs_single, params=dict(spec=spec), timeout=900)
     for mods in ([ins("b1", 1, "mov"), ins("b1", 2, "jmp:e1")], [ins("b1", 1, "mov"), ins("b1", 2, "call:e1")],
                  [dele("b1", 0, 1), ins("b1", 2, "jmp:s1")], [ins("b1", 1, "label"), ins("b1", 2, "jmp:s1b")],
                  [dele("b1", 1, 2), ins("b1", 3, "jmp:e1")], [ins("b1", 1, "trail_label"), ins("b1", 2, "jmp:e1")]):
